@@ -84,7 +84,7 @@ func newJudge(x *h.Ctx) func(p *prog.Program, ops []prog.Op, b *crash.Boundary, 
 		}
 		dir, err := crash.Materialize(fs, work)
 		if err != nil {
-			panic(err)
+			panic(h.Infra{Msg: "harness file operation failed: " + err.Error()})
 		}
 		defer os.RemoveAll(dir)
 		win := crash.Window(b, ops)
